@@ -123,6 +123,9 @@ func init() {
 			if r.Chance(1, 200) {
 				p = 120 + r.Intn(15) // around the size of the scratch array
 			}
+			if r.Chance(1, 25) {
+				p = r.Intn(141) // anywhere up to and just beyond it: a smaller scratch array shows
+			}
 			return c20AtoiIn{genInt64(r, i), p}
 		},
 		Run: func(raw json.RawMessage) (interface{}, error) {
@@ -441,7 +444,7 @@ func genFormatString(r *hx.Rand) string {
 	for k := 0; k < n; k++ {
 		switch r.Intn(14) {
 		case 0, 1, 2, 3, 4:
-			b.WriteString(r.Pick(docFields))
+			b.WriteString(r.Pick(c20AllFields()))
 		case 5, 6:
 			b.WriteString("$header." + r.Pick(headerNames))
 		case 7, 8, 9:
